@@ -321,7 +321,7 @@ def work(shard, seed, tier):
                  "(step 45 quick / 7.5 thorough) x the same wraps")
         return acc
 
-    n = 1500 if tier == "quick" else 62500
+    n = 1500 if tier == "quick" else 40000
 
     def execute(case):
         fails, nt, cls, key = run_case(case)
